@@ -355,9 +355,6 @@ func c17r8(p *model.Prog, r *report.Result, rule string) {
 				return
 			}
 			mc, isMC := g.Call.Value.(*ssa.MakeClosure)
-			if !isMC {
-				return
-			}
 			var loop *model.Loop
 			for _, l := range loops {
 				if l.Body[g.Block()] && (loop == nil || len(l.Body) < len(loop.Body)) {
@@ -369,7 +366,15 @@ func c17r8(p *model.Prog, r *report.Result, rule string) {
 			}
 			n++
 			shared := ""
-			for _, b := range mc.Bindings {
+			// what the goroutine can reach by reference: a closure's bindings, or pointer
+			// arguments of a plain `go f(args)` (values are copied at the go statement)
+			var refs []ssa.Value
+			if isMC {
+				refs = mc.Bindings
+			} else {
+				refs = g.Call.Args
+			}
+			for _, b := range refs {
 				a, isA := b.(*ssa.Alloc)
 				if !isA || loop.Body[a.Block()] {
 					continue // created inside the iteration: private to it
@@ -462,5 +467,140 @@ func c11r67(p *model.Prog, r *report.Result) {
 			}
 		}
 		r.Check(found && ok, "C11.R7", fkey(fn, "open", "truncating"), p.Pos(fn.Pos()), "file truncated on open", "the recording file is opened without truncation: when the name already exists with a longer content the old tail stays behind the new data and the file is not a valid FLV/TS stream")
+	}
+}
+
+// c17r9: relay-push bookkeeping is keyed by the configured target url.
+func c17r9(p *model.Prog, r *report.Result) {
+	r.Rule("C17.R9", "every call of Group.AddRtmpPushSession / DelRtmpPushSession passes, as the target, the key of Group.url2PushProxy the push was started for (the range key, possibly through parameters of the goroutine or of helpers) - never a string derived from it (url + '?' + publisher parameters): the entry's isPushing flag is cleared only under its own key, otherwise the target is never retried")
+	proxyF := p.Field("pkg/logic", "Group", "url2PushProxy")
+	n := 0
+	for _, name := range []string{"AddRtmpPushSession", "DelRtmpPushSession"} {
+		obj := p.MethodObj("pkg/logic", "Group", name)
+		for _, fn := range lalFuncsIn(p, "pkg/logic") {
+			for _, ci := range model.CallsTo(fn, obj) {
+				args := ci.Common().Args
+				if len(args) < 2 {
+					continue
+				}
+				n++
+				seen := map[ssa.Value]bool{}
+				var trace func(v ssa.Value, f *ssa.Function, d int) string // "" = the map key
+				trace = func(v ssa.Value, f *ssa.Function, d int) string {
+					v = model.Unwrap(v)
+					if seen[v] || d > 8 {
+						return ""
+					}
+					seen[v] = true
+					switch x := v.(type) {
+					case *ssa.Extract:
+						if rangedField(iterOrigin(x)) == proxyF && x.Index == 1 {
+							return ""
+						}
+						return "a value that is not the key of url2PushProxy"
+					case *ssa.BinOp:
+						return "a string built from the key (" + x.Op.String() + ")"
+					case *ssa.Phi:
+						for _, e := range x.Edges {
+							if w := trace(e, f, d+1); w != "" {
+								return w
+							}
+						}
+						return ""
+					case *ssa.UnOp:
+						if x.Op == token.MUL {
+							if al, ok := x.X.(*ssa.Alloc); ok {
+								for _, ref := range *al.Referrers() {
+									if st, isSt := ref.(*ssa.Store); isSt && st.Addr == ssa.Value(al) {
+										if w := trace(st.Val, f, d+1); w != "" {
+											return w
+										}
+									}
+								}
+								return ""
+							}
+							if fv, ok := x.X.(*ssa.FreeVar); ok {
+								return trace(fv, f, d+1)
+							}
+						}
+						return "a value that is not the key of url2PushProxy"
+					case *ssa.FreeVar:
+						par := f.Parent()
+						if par == nil {
+							return "an unresolved closure variable"
+						}
+						for i, fv := range f.FreeVars {
+							if fv != x {
+								continue
+							}
+							for _, ref := range *f.Referrers() {
+								if mc, isMC := ref.(*ssa.MakeClosure); isMC && i < len(mc.Bindings) {
+									if w := trace(mc.Bindings[i], par, d+1); w != "" {
+										return w
+									}
+								}
+							}
+						}
+						return ""
+					case *ssa.Alloc:
+						for _, ref := range *x.Referrers() {
+							if st, isSt := ref.(*ssa.Store); isSt && st.Addr == ssa.Value(x) {
+								if w := trace(st.Val, f, d+1); w != "" {
+									return w
+								}
+							}
+						}
+						return ""
+					case *ssa.Parameter:
+						// the callers of the function (a goroutine body: the go statement's arguments)
+						k := -1
+						for i, q := range f.Params {
+							if q == x {
+								k = i
+							}
+						}
+						found := false
+						for _, ed := range p.Callers(f) {
+							if ed.Site == nil || !model.IsLal(ed.Caller.Func) {
+								continue
+							}
+							cargs := ed.Site.Common().Args
+							if k < 0 || k >= len(cargs) {
+								continue
+							}
+							found = true
+							if w := trace(cargs[k], ed.Caller.Func, d+1); w != "" {
+								return w
+							}
+						}
+						// an anonymous function called directly: go func(u string){..}(url)
+						if !found && f.Parent() != nil {
+							for _, ref := range *f.Referrers() {
+								if mc, isMC := ref.(*ssa.MakeClosure); isMC {
+									for _, r2 := range *mc.Referrers() {
+										if c2, isC := r2.(ssa.CallInstruction); isC && c2.Common().Value == ssa.Value(mc) && k >= 0 && k < len(c2.Common().Args) {
+											found = true
+											if w := trace(c2.Common().Args[k], f.Parent(), d+1); w != "" {
+												return w
+											}
+										}
+									}
+								}
+							}
+						}
+						if !found {
+							return "" // an exported entry point: the caller's business
+						}
+						return ""
+					}
+					return "a value that is not the key of url2PushProxy"
+				}
+				why := trace(args[1], fn, 0)
+				r.Check(why == "", "C17.R9", fkey(fn, "push-key", name), p.InstrPos(ci), "keyed by the url2PushProxy key", name+" is given "+why+": the entry of the real target keeps isPushing = true for ever (no retry after a failed or ended push, no push for the next publisher) or is looked up under a key that does not exist")
+			}
+		}
+	}
+	if n < 2 {
+		r.Bad("C17.R9", "floor", "", fmt.Sprintf("only %d Add/DelRtmpPushSession calls found in pkg/logic", n))
 	}
 }
